@@ -83,12 +83,20 @@ struct hilbert {
         std::size_t x = c[0];
         std::size_t y = c[1];
 
-        // TODO: `sizes[0]` has to equal `sizes[1]`.
-        for (s = sizes[0] / 2; s > 0; s /= 2) {
+        // The curve is walked on the smallest power-of-two square that
+        // contains the field, which is also the square the storage is sized
+        // for.
+        std::size_t n = 1;
+
+        while (n < sizes[0] || n < sizes[1]) {
+            n *= 2;
+        }
+
+        for (s = n / 2; s > 0; s /= 2) {
             rx = (x & s) > 0;
             ry = (y & s) > 0;
             d += s * s * ((3 * rx) ^ ry);
-            rot(sizes[0], &x, &y, rx, ry);
+            rot(n, &x, &y, rx, ry);
         }
 
         return d;
@@ -115,7 +123,7 @@ struct hilbert {
         typename T::parent_t::non_owning_data_t nother(other);
 
         utility::nd_map<decltype(sizes)>(
-            [&nother, &res](decltype(sizes) t) {
+            [&sizes, &nother, &res](decltype(sizes) t) {
                 coordinate_t c;
 
                 for (std::size_t i = 0; i < contravariant_input_t::dimensions;
@@ -123,7 +131,7 @@ struct hilbert {
                     c[i] = t[i];
                 }
 
-                std::size_t idx = calculate_index(c);
+                std::size_t idx = calculate_index(c, sizes);
 
                 for (std::size_t i = 0; i < covariant_output_t::dimensions; ++i)
                 {
@@ -271,7 +279,7 @@ struct hilbert {
             }
 #endif
 
-            return m_storage.at(calculate_index(c));
+            return m_storage.at(calculate_index(c, m_sizes));
         }
 
         typename backend_t::non_owning_data_t & get_backend(void)
